@@ -597,6 +597,9 @@ def oracle_exec(case, out, v):
             if res == "sendok" and written != "1" or res == "readok" and kind != "read" and written != "1":
                 v("executor-success-unsent", f"future {fid} ({kind}) reported {res} but the remote end does not hold "
                   f"the request", i, fut=fid)
+            if kind == "reqeat" and res == "assumeok" and written != "1":
+                v("executor-success-unsent", f"future {fid} (reqeat, the PUT_VALUE request) was assumed sent although the "
+                  f"remote end does not hold the request: a quorum would count a peer that never got the record", i, fut=fid)
             if sec > t0 + X_BOUND:
                 v("executor-late-result", f"future {fid} ({kind}) submitted at {t0} s yielded {res} at {sec} s, "
                   f"later than the write + read timeouts", i, fut=fid)
@@ -710,6 +713,10 @@ class ServeOracle:
         self.refresh = int(opts["refresh"]) * 1000 if opts.get("refresh", "").isdigit() else None
         self.user_keys = set()
         self.big_keys = set()
+        # a record the user stored stays retrievable (no count bound, no ttl 0, size below the bound)
+        self.keeps = "maxrec" not in opts and "ttl" not in opts and "default" not in opts
+        self.maxsize = int(opts["maxsize"]) if opts.get("maxsize", "").isdigit() else 65 * 1024
+        self.must_have = set()
         self.user_peers = {p for p in opts.get("known", "").split(",") if p}
         self.requests = {}    # inbound number -> (kind, key, must_answer, step)
         self.responses = {}   # inbound number -> list of response kinds
@@ -728,6 +735,10 @@ class ServeOracle:
             self.user_keys.add(t[1])
             if any(a.startswith("size=") and a[5:].isdigit() and int(a[5:]) > 400 for a in t[2:]):
                 self.big_keys.add(t[1])
+            size = next((int(a[5:]) for a in t[2:] if a.startswith("size=") and a[5:].isdigit()), 1)
+            if self.keeps and size < self.maxsize and (name == "store_record" and toks and toks[0] == "ok"
+                                                      or name == "put_record" and toks and toks[0].startswith("q=")):
+                self.must_have.add(t[1])
         elif name == "put_record_to" and "local" in t[4:]:
             self.user_keys.add(t[1])
         elif name == "add_known_peer" and len(t) > 1:
@@ -783,6 +794,9 @@ class ServeOracle:
                 v("inbound-double-response", f"{kind} request on inbound substream {k} answered twice: {self.responses[k]}", i)
             if rk == "PUT_VALUE" and len(f) >= 4 and f[3] != key:
                 v("inbound-wrong-response", f"PUT_VALUE {key} acknowledged as {tok}", i)
+            if rk == "GET_VALUE" and len(f) >= 4 and f[3] == "rec=-" and key in self.must_have and key not in self.big_keys:
+                v("stored-record-not-served", f"GET_VALUE {key} answered without record although the user stored that key "
+                  f"(store_record / put_record) and nothing can have evicted it", i)
             if rk == "GET_VALUE" and len(f) >= 4 and f[3] != "rec=-" and self.manual_valid and key not in self.user_keys:
                 v("manual-validation-stored", f"GET_VALUE {key} served a record in manual validation mode although the user "
                   f"never stored that key (only inbound PUT_VALUEs carried it)", i)
